@@ -7,4 +7,8 @@ import OxiaVerif.Facts
 import OxiaVerif.Lemmas.Key
 import OxiaVerif.Props.C11
 import OxiaVerif.Props.C11OnTree
+import OxiaVerif.Model.Wal
+import OxiaVerif.Lemmas.Wal
+import OxiaVerif.Props.C09
+import OxiaVerif.Props.C09OnTree
 import OxiaVerif.Driver.Dispatch
